@@ -32,7 +32,14 @@ class Family:
         n = nblob or r.choice([2, 2, 3])
         self.blobs = []
         cen = [(1.5 + r.uniform(-0.05, 0.05), r.uniform(-0.08, 0.08))]
-        if n >= 2:
+        self.offaxis = r.random() < 0.35
+        if self.offaxis:
+            # magnetic axis outboard of the middle of the domain, a second current channel well inboard: the O-points sit at different
+            # major radii, so which one is nearest to the middle of the domain depends on the R coordinate of that middle
+            cen = [(1.5 + r.uniform(0.12, 0.2), r.uniform(-0.08, 0.08))]
+        if n >= 2 and self.offaxis:
+            cen.append((1.5 - r.uniform(0.28, 0.36), r.choice([-1, 1]) * r.uniform(0.3, 0.5)))
+        elif n >= 2:
             cen.append((1.5 + r.uniform(-0.08, 0.08), r.choice([-1, 1]) * r.uniform(0.5, 0.65)))
         if n >= 3:
             cen.append((1.5 + r.uniform(-0.08, 0.08), -math.copysign(1, cen[1][1]) * r.uniform(0.5, 0.65)))
